@@ -24,9 +24,10 @@ ends in a number (`C02_counterexample_rawCapture`), a multi-line definition nest
 ## What is proved
 
 `C02_roundtrip_partial`: the statement for every program whose instructions all satisfy the explicit
-decidable predicate `provedKind` (22 of the 40 printable kinds: all classical instructions with literal
+decidable predicate `provedKind` (29 of the 40 printable kinds: all classical instructions with literal
 operands, DECLARE with SHARING/OFFSET, control flow, MEASURE, RESET, FENCE, PRAGMA (incl. EXTERN), INCLUDE,
-HALT/NOP/WAIT), with `≈` being plain equality.  The remaining kinds are covered by the correspondence check
+HALT/NOP/WAIT, gate applications with modifiers and expression parameters, SET-FREQUENCY, SET-PHASE, SET-SCALE, SHIFT-FREQUENCY, SHIFT-PHASE,
+SWAP-PHASES), with `≈` being plain equality.  The remaining kinds are covered by the correspondence check
 only (every accepted text is run through the real pipeline AND the model, which must agree).
 -/
 namespace QV.C02
@@ -91,6 +92,9 @@ def redefinedCalibrationWitness : List Instruction :=
   [.calibrationDefinition ⟨[], "X", [], [.fixed 0]⟩ [.gate ⟨"Y", [], [.fixed 5], []⟩],
    .calibrationDefinition ⟨[], "X", [], [.fixed 0]⟩ [.gate ⟨"Y", [], [.fixed 6], []⟩]]
 
+/-- `H %LT` -/
+def keywordQubitWitness : Instruction := .gate ⟨"H", [], [.variable "LT"], []⟩
+
 /-- does the listing print, and do the printed tokens parse? -/
 def printsAndReparses (L : List Instruction) : Bool :=
   match printProgramTokens stdFmt L with
@@ -120,6 +124,14 @@ theorem C02_counterexample_redefinedCalibration :
     printsAndReparses (build redefinedCalibrationWitness).listing = true ∧
       Qubit.fixed 5 ∈ usedQubits redefinedCalibrationWitness ∧
       Qubit.fixed 5 ∉ usedQubits (build redefinedCalibrationWitness).listing := by
+  decide
+
+/-- known finding C02/qubit-variable-named-like-keyword: `H %LT` parses to the witness, whose printed form
+`H LT` (`LT` lexes as a command) does not parse -/
+theorem C02_counterexample_keywordQubit :
+    (match parseProgram [.identifier "H".toList, .variable "LT".toList] with
+      | .ok [.gate g] [] => decide (g = ⟨"H", [], [.variable "LT"], []⟩)
+      | _ => false) = true ∧ printsAndReparses [keywordQubitWitness] = false := by
   decide
 
 end QV.C02
